@@ -106,8 +106,17 @@ pub fn compile<TCompilationProfile: CompilationProfile>(
         &mut state.file_system_state,
     );
 
-    let total_artifacts_written = apply_file_system_operations(&file_system_operations, &artifacts)
-        .map_err(Diagnostic::from)?;
+    let total_artifacts_written =
+        match apply_file_system_operations(&file_system_operations, &artifacts) {
+            Ok(total_artifacts_written) => total_artifacts_written,
+            Err(e) => {
+                // The operations were only partially applied, so the artifact directory
+                // matches neither the previous nor the new state. Forget what we know
+                // about it; the next compile recreates it from scratch.
+                state.file_system_state = None;
+                return Diagnostic::from(e).wrap_vec().wrap_err();
+            }
+        };
 
     CompilationStats {
         client_field_count: stats.client_field_count,
